@@ -131,8 +131,10 @@ theorem cancel_silences (st : St) (op : Op) :
     · rfl
     · split <;> exact hcp _ _
   | get o key => exact same _ rfl
+  | exists_ o key => exact same _ rfl
   | push r => exact same _ rfl
   | flush => exact same _ rfl
+  | putMany o rs => apply same; simp only [step]; split <;> rfl
   | drain =>
     simp only [step, List.map_map]
     exact List.prefix_refl _
@@ -224,6 +226,29 @@ theorem put_delivers_full_statement_REFUTED :
     (by simp [step, ifacePut, putDenied, Opts.all, putPrepared, applyOpts, newForm])
   simp [step, ifacePut, putDenied, Opts.all, putPrepared, applyOpts, newForm, St.init] at hw
 
+/-- `Interface.PutMany` is the other write that does not reach the subscribers (nor the pre-put hooks): the batch goes
+    to the storage directly — documented on `PutMany` itself ("omits … Hooks, Subscriptions"). Recorded as a finding
+    against the statement's "through any interface". -/
+theorem putmany_delivers_full_statement_REFUTED :
+    ¬ (∀ (st : St) (o : Opts) (r : Rec),
+        (step st (.putMany o [r])).2.res = .ok none → sGet (step st (.putMany o [r])).1.store r.key = some (applyOpts o r) →
+        ∃ w, Delivered st (step st (.putMany o [r])).1 w) := by
+  intro h
+  obtain ⟨w, hw, _⟩ := h (St.init ⟨.hashmap, false⟩) { loc := true, int := true } ⟨"k", 0, "", {}⟩
+    (by simp [step, Opts.all]) (by simp [step, Opts.all, St.init, flushStore, applyOpts, sGet, sPut, sErase])
+  simp [step, Opts.all, St.init] at hw
+
+/-- … what it does do: nothing for an interface without all permissions; otherwise the storage is written and
+    nothing else — no feed, no hook call. -/
+theorem putmany_writes_storage_only (st : St) (o : Opts) (rs : List Rec) :
+    (step st (.putMany o rs)).2.calls = [] ∧ (step st (.putMany o rs)).1.subs = st.subs ∧
+    (step st (.putMany o rs)).1.writes = st.writes ∧ (step st (.putMany o rs)).1.closed = st.closed ∧
+    (o.all = false → (step st (.putMany o rs)).1 = st ∧ (step st (.putMany o rs)).2.res = .error .denied) := by
+  simp only [step]
+  by_cases ha : o.all = true
+  · simp [ha]
+  · simp [ha]
+
 /-- In-place modifications (`Delete`, `MakeSecret`, `MakeCrownJewel`, `SetAbsoluteExpiry`, `InsertValue`):
     delivered iff successful; a failed one delivers nothing. -/
 theorem modify_delivers_iff_successful (st : St) (o : Opts) (key : String) (m : Mod) :
@@ -256,15 +281,34 @@ theorem modify_delivers_iff_successful (st : St) (o : Opts) (key : String) (m : 
 /-- `PushUpdate` of an injected database: delivered, unconditionally. -/
 theorem push_delivers (st : St) (r : Rec) : Delivered st (step st (.push r)).1 r := ⟨rfl, notify_subs st r, rfl⟩
 
-/-- Everything that is not a write delivers nothing: `Get`, hook (un)registration, flushing the delayed-write cache. -/
+/-- Everything that is not a write delivers nothing: `Get`, `Exists`, hook (un)registration, flushing the delayed-write cache. -/
 theorem non_writes_deliver_nothing (st : St) (op : Op)
-    (h : (∃ o k, op = .get o k) ∨ (∃ hk, op = .regHook hk) ∨ (∃ id, op = .cancelHook id) ∨ op = .flush) :
+    (h : (∃ o k, op = .get o k) ∨ (∃ o k, op = .exists_ o k) ∨ (∃ hk, op = .regHook hk) ∨ (∃ id, op = .cancelHook id) ∨ op = .flush) :
     (step st op).1.subs = st.subs ∧ (step st op).1.writes = st.writes ∧ (step st op).1.closed = st.closed := by
-  rcases h with ⟨o, k, rfl⟩ | ⟨hk, rfl⟩ | ⟨id, rfl⟩ | rfl
+  rcases h with ⟨o, k, rfl⟩ | ⟨o, k, rfl⟩ | ⟨hk, rfl⟩ | ⟨id, rfl⟩ | rfl
+  · exact ⟨rfl, rfl, rfl⟩
   · exact ⟨rfl, rfl, rfl⟩
   · simp only [step]; split <;> exact ⟨rfl, rfl, rfl⟩
   · exact ⟨rfl, rfl, rfl⟩
   · exact ⟨rfl, rfl, rfl⟩
+
+/-- `Interface.Exists` is a get operation: it makes exactly the hook calls `Get` makes, changes nothing, and answers
+    yes iff `Get` succeeds or is refused for lack of permission, no iff `Get` finds nothing; a veto is handed on. -/
+theorem exists_is_a_get (st : St) (o : Opts) (key : String) :
+    (step st (.exists_ o key)).2.calls = (step st (.get o key)).2.calls ∧ (step st (.exists_ o key)).1 = st ∧
+    (step st (.exists_ o key)).2.flag =
+      (match (step st (.get o key)).2.res with
+       | .ok _ => some true
+       | .error .notfound => some false
+       | .error .denied => some true
+       | .error _ => none) ∧
+    (∀ c, (step st (.get o key)).2.res = .error (.veto c) → (step st (.exists_ o key)).2.res = .error (.veto c)) := by
+  simp only [step, ifaceExists, ifaceGet]
+  cases hg : ifaceGetRec st o key with
+  | mk cs v =>
+    cases v with
+    | ok p => simp
+    | error e => cases e <;> simp
 
 /-! ## A.3 Hooks -/
 
